@@ -23,7 +23,7 @@ PID = "C05"
 RULE = ("instances = tissue (equilibrium | deformed amp x pattern | scaled | sub-tissue | cell deletions) x rhs (static | velocity) x allow_negatives x method; "
         "non-trivial = at least one junction row and one unknown; classes = (rows, cols, path, rhs, method, active-set size)")
 BOUND = {"quick": "3 bases x {equilibrium, 3 amplitudes x 4 patterns, 2 scales} with deviation bound 2 (bound 3 on the smallest base) over 10 axes: variant, right-hand side {static, velocity, velocity with a fast common drift}, allow_negatives, 4 methods, map, cell order, angle limit, point counts (uniform / two-point interfaces among sampled ones), options (omitted / spelled out at their defaults / use_std / initial conditions); a single strongly unbalanced junction at every position (240 bumps, d=2); shipped dumps; all sub-tissues of a 7-cell base and all 1- and 2-cell deletions of an 11-cell base (d=1)",
-         "thorough": "5 bases with deviation bound 4 over the 10 axes of the quick tier (about 2.2e5 configurations; bound 5 was dropped when the point-count and drift axes were added: 7.4e5), bumps d=3, all sub-tissues of an 11-cell base and all 1-, 2- and 3-cell deletions with d=2, shipped dumps x frames x right-hand sides x methods"}
+         "thorough": "5 bases with deviation bound 4 over the 10 axes of the quick tier (about 2.2e5 configurations; bound 5 was dropped when the point-count and drift axes were added: 7.4e5), bumps d=3, all sub-tissues of an 11-cell base with d=1 and all 1-, 2- and 3-cell deletions with d=2 (the sub-tissue product with d=2, 2.5e5 configurations, made the tier run for more than 70 minutes and was cut back), shipped dumps x frames x right-hand sides x methods"}
 ASSUMPTIONS = ["KKT tolerance 1e-9 x scale (default path); iterative back-ends: feasible and cost within (1+1e-4) ('lsq') / (1+1e-6) ('lsq_linear') of the certified optimum; scale = max(1,|A|max) x max(1,|b|max)",
                "'lsq_linear' is judged on consistent systems only (as the statement says)",
                "with allow_negatives=True a solution with negative tensions is only required to solve the square system exactly"]
@@ -392,5 +392,5 @@ def build(tier, seed):
             ListSystem("shipped-fixtures", [{"files": FURROW, "t": t, "rhs": rh, "neg": ng, "method": m}
                                             for t in (0, 3, 7) for rh in ("static", "velocity") for ng in (False, True) for m in (None, "lsq", "lsq_linear", "fix_stress")] +
                        [{"files": [f], "t": 0, "rhs": "static", "neg": False, "method": m} for f in (REPO + "/tests/data/initial_furrow.dmp", REPO + "/tests/data/last_furrow.dmp", REPO + "/tests/data/12_12/step_20.dmp") for m in (None, "lsq")], eval_fixture),
-            Solver("subtissues", subs, 2, [["eq"], ["noise", 0.08, 1], ["noise", 0.2, 2]]),
+            Solver("subtissues", subs, 1, [["eq"], ["noise", 0.08, 1], ["noise", 0.2, 2]]),
             Solver("deletions", deletions("v6x5", 3), 2, [["eq"], ["noise", 0.08, 2], ["noise", 0.2, 0]])]
